@@ -13,6 +13,11 @@ pub fn value(r: &mut Rng) -> String {
     hex::encode(r.bytes(n))
 }
 
+/// a large value (tens of KiB), as a compact spec
+pub fn big_value(r: &mut Rng) -> Value {
+    json!({"fill": r.below(256), "salt": 1 + r.below(250), "len": 30_000 + r.below(40_000)})
+}
+
 pub fn tag(r: &mut Rng) -> Value {
     json!([if r.chance(1, 3) { 1 } else { 0 }, *r.pick(TAG_NAMES), *r.pick(TAG_VALUES)])
 }
@@ -160,11 +165,14 @@ pub fn gen_c16(r: &mut Rng, id: u64, page: usize, thorough: bool) -> Value {
     let n = if thorough || r.chance(2, 3) { *r.pick(&counts) } else { r.range(0, 3 * p + 2) };
     let mut ops = vec![json!({"op": "session", "s": 0, "txn": false})];
     let mut names = vec![];
+    // 1 case in 8 carries large values (a page then holds megabytes)
+    let big = r.chance(1, 8);
     for i in 0..n {
         let c = if r.chance(3, 4) { "c1" } else { "c2" };
         names.push((c, format!("r{}", i)));
         let t = if r.chance(1, 2) { json!([[0, "a", "1"]]) } else { json!([[1, "n", "5"]]) };
-        ops.push(json!({"op": "insert", "s": 0, "k": 2, "c": c, "n": format!("r{}", i), "v": value(r), "t": t, "e": null}));
+        let v = if big { big_value(r) } else { json!(value(r)) };
+        ops.push(json!({"op": "insert", "s": 0, "k": 2, "c": c, "n": format!("r{}", i), "v": v, "t": t, "e": null}));
     }
     // history with deletions and re-insertions (row id reuse, replace keeps position)
     if n > 3 && r.chance(1, 2) {
@@ -188,7 +196,7 @@ pub fn gen_c16(r: &mut Rng, id: u64, page: usize, thorough: bool) -> Value {
     }
     let offs: Vec<Value> = vec![Value::Null, json!(-1), json!(0), json!(1), json!(p - 1), json!(p), json!(p + 1), json!(2 * p), json!(n), json!(n + 5), json!(i64::MAX)];
     let lims: Vec<Value> = vec![Value::Null, json!(-1), json!(0), json!(1), json!(p - 1), json!(p), json!(p + 1), json!(2 * p), json!(n), json!(i64::MAX)];
-    let nq = if thorough { 24 } else { 10 };
+    let nq = if big { 3 } else if thorough { 24 } else { 10 };
     for _ in 0..nq {
         let c = match r.below(3) { 0 => Value::Null, _ => json!("c1") };
         let f = match r.below(4) { 0 => json!({"eq": ["a", "1"]}), 1 => json!({"not": {"eq": ["~n", "5"]}}), _ => Value::Null };
@@ -199,7 +207,7 @@ pub fn gen_c16(r: &mut Rng, id: u64, page: usize, thorough: bool) -> Value {
         }
     }
     // consecutive windows partition the full result
-    let w = 1 + r.below(2 * page);
+    let w = if big { page + r.below(page) } else { 1 + r.below(2 * page) };
     let mut off = 0i64;
     while off <= n + w as i64 {
         ops.push(json!({"op": "scan", "k": 2, "c": null, "f": null, "off": off, "lim": w, "ord": true, "desc": false}));
@@ -212,7 +220,25 @@ pub fn gen_c16(r: &mut Rng, id: u64, page: usize, thorough: bool) -> Value {
 pub fn gen_c17(r: &mut Rng, id: u64, _thorough: bool) -> Value {
     let mut ops = vec![json!({"op": "session", "s": 0, "txn": false})];
     // offsets are ≡ 5 s (mod 10 s) and ticks multiples of 10 s, so no read falls within 5 s of an expiry
-    let offsets: Vec<Value> = vec![Value::Null, json!(-3_600_000), json!(-5000), json!(5000), json!(15000), json!(25000), json!(86_405_000i64), json!(315_360_000_005_000i64 / 10)];
+    // flavour B (1 case in 6): expiries beyond year 9999 (which SQLite's DATETIME cannot represent), kept apart
+    // from expired records so that each finding has its own signature
+    let beyond = r.chance(1, 6);
+    let mut offsets: Vec<Value> = if beyond {
+        vec![Value::Null, json!(86_405_000i64), json!(3 * 10i64.pow(14) + 5000), json!(8 * 10i64.pow(14) + 5000), json!(10i64.pow(15) + 5000)]
+    } else {
+        vec![Value::Null, Value::Null, json!(-3_600_005_000i64), json!(-5000), json!(5000), json!(15000), json!(25000), json!(86_405_000i64)]
+    };
+    // every order of magnitude below year 9999, both signs: ±(m·10^k s + 5 s) for k = 1..11
+    if !beyond {
+        for _ in 0..6 {
+            let k = 1 + r.below(11) as u32;
+            let m = *r.pick(&[1i64, 2, 3, 5, 8]);
+            let sign = if r.chance(1, 2) { 1 } else { -1 };
+            let v = sign * (m * 10i64.pow(k) * 1000 + 5000);
+            if v < 250_000_000_000_000 { offsets.push(json!(v)); }
+        }
+        if r.chance(1, 10) { offsets.push(json!(if r.chance(1, 2) { i64::MAX } else { i64::MIN })); }
+    }
     let nrec = 2 + r.below(5);
     for i in 0..nrec {
         ops.push(json!({"op": "insert", "s": 0, "k": 2, "c": "c1", "n": format!("n{}", i), "v": value(r), "t": [[0, "a", "1"]], "e": r.pick(&offsets).clone()}));
@@ -221,7 +247,7 @@ pub fn gen_c17(r: &mut Rng, id: u64, _thorough: bool) -> Value {
     for _ in 0..steps {
         let nm = format!("n{}", r.below(nrec));
         let op = match r.below(12) {
-            0 | 1 => json!({"op": "tick", "ms": 10000 * (1 + r.below(2)) as i64}),
+            0 | 1 => if beyond { json!({"op": "count", "s": 0, "k": 2, "c": null, "f": null}) } else { json!({"op": "tick", "ms": 10000 * (1 + r.below(2)) as i64}) },
             2 | 3 => json!({"op": "fetch", "s": 0, "k": 2, "c": "c1", "n": nm}),
             4 => json!({"op": "count", "s": 0, "k": 2, "c": "c1", "f": null}),
             5 => json!({"op": "fetch_all", "s": 0, "k": 2, "c": null, "f": {"eq": ["a", "1"]}, "lim": null, "ord": true, "desc": false}),
@@ -240,7 +266,7 @@ pub fn gen_c17(r: &mut Rng, id: u64, _thorough: bool) -> Value {
 
 /// C07: interleaved histories over several profiles with colliding identities, create / remove / re-create
 pub fn gen_c07(r: &mut Rng, id: u64, thorough: bool) -> Value {
-    let pnames = ["default", "p1", "p2", "p\u{e9}"];
+    let pnames = ["default", "p1", "p2", "p\u{e9}", "", "P1"];
     let len = if thorough { 20 + r.below(120) } else { 10 + r.below(50) };
     let mut ops = vec![];
     let mut next_sid = 0u64;
